@@ -333,7 +333,10 @@ impl Group for C12Node {
             // overlapping invoice approvals across a bucket boundary (defect F25: the clock was read before the lock)
             "n_new 1000000 h|n_race 1600000000 600000 1600000400 600000".split('|').map(|s| s.to_string()).collect(),
             "n_new 1000000 h|n_keysend 1600000000 100|n_race 1600000100 600000 1600000100 600000".split('|').map(|s| s.to_string()).collect(),
-            "n_new 1000000 h|n_race 1600000000 600000 1600000400 600000 k".split('|').map(|s| s.to_string()).collect()]
+            "n_new 1000000 h|n_race 1600000000 600000 1600000400 600000 k".split('|').map(|s| s.to_string()).collect(),
+            // the interval type is changed across a restart: the daily control must remember for 23 hours
+            "n_new 1000 h|n_keysend 1600000000 900 d|n_restart 1000 d|n_keysend 1600000100 600 d|n_keysend 1600047000 600 d|n_restart 1000 d|n_keysend 1600080000 600 d|n_keysend 1600090000 600 d"
+                .split('|').map(|s| s.to_string()).collect()]
     }
     fn model_line(&self, op: &str) -> Option<String> {
         let t: Vec<&str> = op.split_whitespace().collect();
@@ -376,6 +379,31 @@ impl Group for C12Node {
                 ops.push(format!("n_dup {}", t));
                 k += 1;
             }
+        }
+        // sometimes the operator changes the configured interval type (and possibly the limit) across a restart; the
+        // history goes on in the geometry of the NEW spec: approvals spread over its tracked interval, amounts around
+        // half the limit, so that a control that forgets too early approves too much inside one window
+        if rng.chance(1, 5) {
+            let nty = if ty == "d" { "h" } else { "d" };
+            let (nbi, nn) = if nty == "d" { (3600u64, 24u64) } else { (300, 12) };
+            let nlimit = if rng.chance(1, 3) { limit + 1 } else { limit };
+            ops.push(format!("n_restart {} {}", nlimit, nty));
+            let mut t = tmax + rng.below(nbi);
+            for k in 0..rng.range(2, 5) {
+                if k > 0 {
+                    t += match rng.below(5) {
+                        0 => nbi * (nn / 2) + rng.below(nbi),          // half the tracked interval later
+                        1 => nbi * rng.range(nn / 2, nn - 1),          // more than half, less than the window
+                        2 => nbi * (nn - 1) - rng.below(nbi.min(60)),  // just inside the window
+                        3 => nbi * (nn - 1) + 1 + rng.below(nbi),      // just outside
+                        _ => rng.below(nbi * nn),
+                    };
+                }
+                let a = *rng.pick(&[nlimit / 2 + 1, nlimit - nlimit / 3, nlimit / 2, nlimit]);
+                if a > 0 { ops.push(format!("n_keysend {} {} d", t, a)); }
+                if rng.chance(1, 4) { ops.push(format!("n_restart {} {}", nlimit, nty)); }
+            }
+            return ops;
         }
         // sometimes two overlapping invoice approvals at the end (the second one possibly in a later bucket)
         if rng.chance(1, 5) {
@@ -644,10 +672,17 @@ impl Group for C12Fee {
     fn budget(&self, tier: Tier) -> usize { if tier == Tier::Quick { 40 } else { 800 } }
     fn corpus(&self) -> Vec<Vec<String>> {
         vec!["f_new 5000000 d|f_onchain 1600000000 3000|f_restart 5000000 d|f_onchain 1600000100 3000|f_onchain 1600000200 1000"
+            .split('|').map(|s| s.to_string()).collect(),
+            // the change address is on the allowlist and the change is smaller than the fee
+            "f_new 5000000 d|f_allow|f_onchain 1600000000 2600 s|f_onchain 1600000100 2600 s|f_restart 5000000 d|f_onchain 1600000200 2300 as"
+            .split('|').map(|s| s.to_string()).collect(),
+            // the fee limit's interval type is changed across a restart
+            "f_new 5000000 h|f_onchain 1600000000 3000|f_restart 5000000 d|f_onchain 1600000100 3000|f_onchain 1600047000 3000|f_restart 5000000 d|f_onchain 1600050000 1500"
             .split('|').map(|s| s.to_string()).collect()]
     }
     fn model_line(&self, op: &str) -> Option<String> {
         let t: Vec<&str> = op.split_whitespace().collect();
+        if t.first() == Some(&"f_allow") { return None; }
         Some(match t.as_slice() {
             ["f_new", l, ty] | ["f_new", l, ty, _] => format!("spec {} {}", l, ty),
             ["f_onchain", now, fee] | ["f_onchain", now, fee, _] => format!("insert {} {}", now, fee.parse::<u64>().unwrap_or(0) * 1000),
@@ -662,11 +697,25 @@ impl Group for C12Fee {
         let mut ops = vec![format!("f_new {} {}{}", limit, ty, if rng.chance(1, 3) { " o" } else { "" })];
         let len = rng.range(3, if tier == Tier::Quick { 8 } else { 16 }) as usize;
         let mut t = 1_600_000_000u64 + rng.below(10_000);
+        // the operator may have put one of the wallet's own addresses on the allowlist (the change address of the
+        // requests below): an output that is both to the wallet and allowlisted still counts once
+        if rng.chance(1, 3) { ops.push("f_allow".to_string()); }
+        let (mut limit, mut ty, mut bi, mut n) = (limit, ty, bi, n);
         for _ in 0..len {
             t += match rng.below(5) { 0 => 0, 1 => bi - (t % bi), 2 => rng.below(bi), 3 => bi * rng.range(1, n), _ => rng.below(bi * n) };
-            if rng.chance(1, 3) { ops.push(format!("f_restart {} {}", limit, ty)); }
+            if rng.chance(1, 3) {
+                // mostly the unchanged spec; sometimes another limit or the other interval type
+                match rng.below(8) {
+                    0 => { limit += 1000; }
+                    1 => { ty = if ty == "d" { "h" } else { "d" }; let g = if ty == "d" { (3600u64, 24u64) } else { (300, 12) }; bi = g.0; n = g.1; }
+                    _ => {}
+                }
+                ops.push(format!("f_restart {} {}", limit, ty));
+            }
             let fee = match rng.below(5) { 0 => limit / 1000, 1 => limit / 2000 + 1, 2 => limit / 2000, 3 => 300, _ => rng.range(200, limit / 1000) };
-            ops.push(format!("f_onchain {} {}{}", t, fee, if rng.chance(1, 3) { " a" } else { "" }));
+            // flags: a = through the approver, s = a small change output (less than the fee)
+            let flags = format!("{}{}", if rng.chance(1, 3) { "a" } else { "" }, if rng.chance(1, 3) { "s" } else { "" });
+            ops.push(format!("f_onchain {} {}{}{}", t, fee, if flags.is_empty() { "" } else { " " }, flags));
         }
         ops
     }
@@ -681,10 +730,20 @@ impl Group for C12Fee {
         let mut node: Option<Arc<Node>> = None;
         let mut log: Vec<(u64, u64)> = Vec::new();
         let (mut st, mut sf, mut sr) = (false, false, false);
+        // the fee velocity spec in force according to the ops (the oracle does not trust the node's own control)
+        let mut cur_spec: Option<(u64, String)> = None;
         for (i, op) in ops.iter().enumerate() {
             let t: Vec<&str> = op.split_whitespace().collect();
             let line = match t.as_slice() {
+                ["f_allow"] => {
+                    let n = node.as_ref().expect("f_new first").clone();
+                    let addr = make_test_funding_wallet_addr(&n, 1, SpendType::P2wpkh).to_string();
+                    n.add_allowlist(&[addr]).unwrap();
+                    co.tags.insert("allowlisted-change".into());
+                    "ok".to_string()
+                }
                 ["f_new", l, ty, ..] => {
+                    cur_spec = Some((l.parse().unwrap(), ty.to_string()));
                     ONCHAIN_FACTORY.store(t.get(3) == Some(&"o"), std::sync::atomic::Ordering::Relaxed);
                     co.tags.insert(format!("factory:{}", if t.get(3) == Some(&"o") { "onchain" } else { "simple" }));
                     let n = Arc::new(Node::new(config, &seed, vec![], fee_services(persister.clone(), clock.clone(), l.parse().unwrap(), itype(ty).unwrap())));
@@ -699,15 +758,18 @@ impl Group for C12Fee {
                 ["f_onchain", now, fee, ..] => {
                     // 4th token `a`: the way vlsd does it — the signer's approver (`handle_proposed_onchain` of an
                     // approving approver) first, then the unchecked signing step
-                    let via_approver = t.get(3) == Some(&"a");
+                    let via_approver = t.get(3).map(|f| f.contains('a')).unwrap_or(false);
+                    let small_change = t.get(3).map(|f| f.contains('s')).unwrap_or(false);
                     let n = node.as_ref().expect("f_new first").clone();
                     let now: u64 = now.parse().unwrap();
                     let fee: u64 = fee.parse().unwrap();
                     clock.set(Duration::from_secs(now));
                     let node_ctx = TestNodeContext { node: n.clone(), secp_ctx: Secp256k1::signing_only() };
                     let mut tx_ctx = TestFundingTxContext::new();
-                    tx_ctx.add_wallet_input(&node_ctx, SpendType::P2wpkh, 1, 1_000_000 + fee);
-                    tx_ctx.add_wallet_output(&node_ctx, SpendType::P2wpkh, 1, 1_000_000);
+                    let change = if small_change { 600 } else { 1_000_000 };
+                    tx_ctx.add_wallet_input(&node_ctx, SpendType::P2wpkh, 1, change + fee);
+                    tx_ctx.add_wallet_output(&node_ctx, SpendType::P2wpkh, 1, change);
+                    if small_change { co.tags.insert("small-change".into()); }
                     let tx = tx_ctx.to_tx();
                     let r = std::panic::catch_unwind(std::panic::AssertUnwindSafe(|| {
                         if via_approver {
@@ -723,10 +785,11 @@ impl Group for C12Fee {
                         }
                     }));
                     co.tags.insert(format!("onchain-route:{}", if via_approver { "approver" } else { "direct" }));
-                    let (d, limit, wlen) = {
-                        let s = n.get_state();
-                        let v = &s.fee_velocity_control;
-                        (digest(v), v.limit, (v.buckets.len() as u64 - 1) * v.bucket_interval as u64)
+                    let d = digest(&n.get_state().fee_velocity_control);
+                    let (limit, wlen) = match &cur_spec {
+                        Some((l, ty)) if ty == "d" => (*l, 23 * 3600u64),
+                        Some((l, _)) => (*l, 11 * 300u64),
+                        None => (u64::MAX, 0),
                     };
                     match r {
                         Err(_) => { co.tags.insert("onchain:panic".into()); "panic".to_string() }
@@ -758,6 +821,10 @@ impl Group for C12Fee {
                     let (node_id, entry) = persister.get_nodes().unwrap().into_iter().next().unwrap();
                     let n = Node::restore_node(&node_id, entry, &seed, fee_services(persister.clone(), clock.clone(), l.parse().unwrap(), itype(ty).unwrap())).unwrap();
                     let d = digest(&n.get_state().fee_velocity_control);
+                    let new_spec = Some((l.parse::<u64>().unwrap(), ty.to_string()));
+                    // a changed spec replaces the control (update_spec): its history starts again
+                    if new_spec != cur_spec { log.clear(); co.tags.insert("restart:spec-changed".into()); } else { co.tags.insert("restart:kept".into()); }
+                    cur_spec = new_spec;
                     node = Some(n);
                     format!("ok {}", d)
                 }
